@@ -113,6 +113,20 @@ func readCommand(c net.Conn, first bool) bool {
 	return true
 }
 
+// slowConn delays the first reply written to it by 1.5 s (virtual).
+type slowConn struct {
+	net.Conn
+	delayed bool
+}
+
+func (c *slowConn) Write(p []byte) (int, error) {
+	if !c.delayed {
+		c.delayed = true
+		vrt.SleepFor(int64(1500 * time.Millisecond))
+	}
+	return c.Conn.Write(p)
+}
+
 func RunSync(spec SyncSpec) vx.Out {
 	var viol []vx.Found
 	bad := func(clause, f string, a ...interface{}) {
@@ -184,6 +198,10 @@ func RunSync(spec SyncSpec) vx.Out {
 					lks[i].HandleConn(c)
 				case "close":
 					c.Close()
+				case "slow":
+					// a healthy nsqlookupd whose first reply on this connection takes 1.5 s -
+					// longer than nsqd's read deadline (1 s) - and arrives all the same
+					lks[i].HandleConn(&slowConn{Conn: c})
 				case "stall":
 					readCommand(c, true)
 					// never answer; nsqd's read deadline (1 s) must fire
